@@ -481,6 +481,20 @@ def w_spill(case, led):
                         led.check(all(ok2) and all(ok3) and nfiles == n, "post:MatrixProduct.__setitem__:replaces_spilled_site", "MatrixProduct.__setitem__",
                                   f"after re-assigning every site twice: values ok {all(ok2)}/{all(ok3)}, files in the spill directory {nfiles} (sites {n})",
                                   key, fields, rep, nontriv)
+                        # a site can be addressed by a negative or a non-negative index: a store through one spelling is visible through the other,
+                        # in read - store - read order (a site-level cache keyed by the raw index would go stale here)
+                        okn = []
+                        for i in range(n):
+                            neg = i - n
+                            for rd, wr in ((neg, i), (i, neg)):
+                                _ = sp[rd].array
+                                sp[wr] = np.asarray(ref[i].array) * 3.0
+                                okn.append(bits(sp[rd].array, np.asarray(ref[i].array) * 3.0) and bits(sp[wr].array, np.asarray(ref[i].array) * 3.0))
+                                _ = sp[rd].array
+                                sp[wr] = np.array(ref[i].array, copy=True)
+                                okn.append(bits(sp[rd].array, ref[i].array) and bits(sp[wr].array, ref[i].array))
+                        led.check(all(okn), "post:MatrixProduct.__setitem__:visible_through_every_index_spelling", "MatrixProduct.__setitem__",
+                                  "read site [-k], store site [n-k], read [-k] again (or the other way round): the old tensor came back", key, fields, rep, nontriv)
                         # round trip with a spilled source
                         cnt += 1
                         l = chain_roundtrip(led, sp, model, os.path.join(tmp, f"s{cnt}.npz"), key, rep, [], nontriv, extra_fields={"spill": True})
